@@ -11,8 +11,8 @@ import (
 func init() { Checks["C11"] = CheckC11 }
 
 var c11Points = []string{"before-HS", "after-HS", "after-TC", "after-TA", "after-CC-idle", "client-data-in-flight", "host-data-in-flight", "both-in-flight", "host-data-client-stalled", "channel-create-in-flight"}
-var c11EndWS = []string{"close-channel", "out-of-order", "unframeable", "fin-ws", "rst-ws"}
-var c11EndLegacy = []string{"close-channel", "out-of-order", "unframeable", "fin-in", "rst-in", "fin-out", "rst-out", "end-in-body"}
+var c11EndWS = []string{"close-channel", "out-of-order", "unframeable", "fin-ws", "rst-ws", "second-channel-create"}
+var c11EndLegacy = []string{"close-channel", "out-of-order", "unframeable", "fin-in", "rst-in", "fin-out", "rst-out", "end-in-body", "second-channel-create"}
 
 type c11Cell struct {
 	Point     int    `json:"point_index"`
@@ -28,7 +28,7 @@ type c11Baseline struct {
 
 func CheckC11(l *Lab, verifDir string) int {
 	rep := NewReport("C11", l.Tier, l.Seed, "fault_enumeration", verifDir)
-	rep.Rule = "complete enumeration of cells {point of the exchange: before handshake, after each of the four steps, client data / host data / both in flight} x {way of ending: CLOSE_CHANNEL, out-of-order packet, unframeable bytes, FIN / RST of the websocket, FIN / RST of legacy IN, FIN / RST of legacy OUT, proper end of the chunked IN body} x transport (130 cells; the ninth point is a client that stopped reading while the host keeps sending, so that the relay's write is blocked when the tunnel ends; the tenth delivers the ending right behind an unanswered channel-create request), a third of the legacy tunnels also get a refused second RDG_IN_DATA request under their own id before the ending, plus a legacy stress in which the OUT connection is dropped at PRNG offsets around the arrival of the IN request, each cell run R times (quick 6, thorough 40) with PRNG pacing and delay points against the race-instrumented real binary. Oracle per tunnel (bounded progress, W=15s): the host connection reaches EOF/RST, every client-facing connection reaches EOF/RST; per cell at quiescence: every connection any host accepted has reached EOF/RST, registry add/del events balance and size is back, no goroutine with a frame in the gateway's protocol/transport packages remains, connection gauges are back at the baseline. non-trivial = the ending was delivered to a live tunnel; distinct = cell x repetition outcome"
+	rep.Rule = "complete enumeration of cells {point of the exchange: before handshake, after each of the four steps, client data / host data / both in flight} x {way of ending: CLOSE_CHANNEL, out-of-order packet, unframeable bytes, FIN / RST of the websocket, FIN / RST of legacy IN, FIN / RST of legacy OUT, proper end of the chunked IN body, a channel-create request that is out of order} x transport (150 cells; the ninth point is a client that stopped reading while the host keeps sending, so that the relay's write is blocked when the tunnel ends; the tenth delivers the ending right behind an unanswered channel-create request), a third of the legacy tunnels also get a refused second RDG_IN_DATA request under their own id before the ending, plus a legacy stress in which the OUT connection is dropped at PRNG offsets around the arrival of the IN request, each cell run R times (quick 6, thorough 40) with PRNG pacing and delay points against the race-instrumented real binary. Oracle per tunnel (bounded progress, W=15s): the host connection reaches EOF/RST, every client-facing connection reaches EOF/RST; per cell at quiescence: every connection any host accepted has reached EOF/RST, registry add/del events balance and size is back, no goroutine with a frame in the gateway's protocol/transport packages remains, connection gauges are back at the baseline. non-trivial = the ending was delivered to a live tunnel; distinct = cell x repetition outcome"
 	rep.SetExhaustive(true)
 	rep.Assume("the gateway runs with GOGC=off GOMEMLIMIT=3GiB so that finalizers do not stand in for a missing Close; backends never hang up first; a fired watchdog (15 s, >= 1000x the release time of a correct implementation) is a violation only when the gateway process is alive and answering")
 	var cells []c11Cell
@@ -387,6 +387,13 @@ func c11Run(m *MultiFixture, cell c11Cell, seed int64) *c11Result {
 		} else {
 			t.Send(HandshakeReq(1, 0, 0, m.ServerCaps()))
 		}
+	case "second-channel-create":
+		// a channel-create request at any point but the one where it is in order (there it opens
+		// the channel, and a further one follows): refused, and everything the tunnel holds is released
+		t.Send(SymCCx(u.B).Wire)
+		if cell.Point == 3 {
+			t.Send(SymCCx(u.B).Wire)
+		}
 	case "unframeable":
 		t.Send(PacketLen(PktData, []byte{1, 2, 3, 4, 5, 6, 7, 8}, uint32(rnd.Intn(8))))
 	case "fin-ws", "fin-in":
@@ -407,7 +414,7 @@ func c11Run(m *MultiFixture, cell c11Cell, seed int64) *c11Result {
 	}
 	if cell.Point == 8 {
 		// while the client stays stalled the gateway must already let go of the host
-		if cell.Ending != "close-channel" && cell.Ending != "out-of-order" {
+		if cell.Ending != "close-channel" && cell.Ending != "out-of-order" && cell.Ending != "second-channel-create" {
 			// (a response the packet loop owes is queued behind the blocked relay write: those
 			// two endings can only complete once the client reads again)
 			if !bc.WaitEnd(env.W) {
